@@ -82,6 +82,10 @@ type Opts struct {
 	// StemHeavy gives half of the CFF glyphs a stem list of 23-25 pairs (the
 	// capacity of one stem operator is 24 pairs, 23 after a width operand).
 	StemHeavy bool
+	// NilMaxp lets a quarter of the TrueType fonts come without the TrueType
+	// part of maxp (Outlines.Maxp == nil), as fonts read from files with a
+	// version 0.5 maxp table do.
+	NilMaxp bool
 }
 
 // Case is a generated font with the facts the oracles need.
@@ -473,9 +477,14 @@ func genGlyf(t *rapid.T, n int, o Opts, c *Case, fl *filler) *glyf.Outlines {
 			c.label("short-names")
 		}
 	}
-	{
+	if o.NilMaxp && rapid.IntRange(0, 3).Draw(t, "nilMaxp") == 0 {
+		// what the reader returns for a TrueType font whose maxp table has
+		// the short (version 0.5) form; the writer then emits that form
+		out.Maxp = nil
+		c.label("tt-maxp-short-form")
+	} else {
 		// maxp.Info documents TTF as the TrueType part of the table (nil only
-		// for CFF fonts): a TrueType font value always carries it.
+		// for CFF fonts): a TrueType font value built in memory carries it.
 		u := func(l string) uint16 {
 			return uint16(rapid.OneOf(rapid.IntRange(0, 300), rapid.SampledFrom([]int{0, 1, 65535})).Draw(t, l))
 		}
